@@ -288,6 +288,50 @@ def on_api(p, r, exc, acc):
     acc.sample(dict(flags=r["f"], output=r["out"] if r["exc"] is None else type(r["exc"]).__name__))
 
 
+# ------------------------------------------------------------------ several anonymous <%namespace import=...> tags
+def anon_sources(f):
+    sep = {"same-line": "", "blank": " ", "next-line": "\n"}[f["layout"]]
+    tags = ['<%%namespace file="/n/lib%s" import="%s"/>' % (k, "*" if f["import_" + k] == "star" else "f" + k) for k in ("a", "b")]
+    if f.get("named_between"):
+        tags.insert(1, '<%namespace name="mid" file="/n/libb"/>')
+    main = sep.join(tags) + "\n[${fa()}|${fb()}]"
+    return {"/n/main": main, "/n/liba": '<%def name="fa()">A</%def>', "/n/libb": '<%def name="fb()">B</%def>'}
+
+
+def anon_case(LKm, f):
+    lk = LKm.TemplateLookup(strict_undefined=f["strict"])
+    for k, v in anon_sources(f).items():
+        lk.put_string(k, v)
+    data = {}
+    if f["ctx"]:
+        data = {"fa": lambda: "ctx-a", "fb": lambda: "ctx-b"}       # imported defs come ahead of context variables
+    try:
+        return lk.get_template("/n/main").render(**data).strip()
+    except Exception as e:
+        return "raised %s: %s" % (type(e).__name__, str(e)[:80])
+
+
+def h_anon(p):
+    f = {"layout": ["same-line", "blank", "next-line"][p.choose(3, "layout")], "import_a": ["star", "name"][p.choose(2, "import_a")],
+         "import_b": ["star", "name"][p.choose(2, "import_b")], "named_between": bool(p.choose(2, "named_namespace_between")),
+         "ctx": bool(p.choose(2, "names_also_in_context")), "strict": bool(p.choose(2, "strict_undefined"))}
+    return dict(f=f, out=anon_case(LK, f))
+
+
+def on_anon(p, r, exc, acc):
+    if exc is not None:
+        acc.candidate(kind="harness-exception", input=None, detail="%s: %s" % (type(exc).__name__, str(exc)[:200]))
+        return
+    acc.tags["asserted"] += 1
+    acc.vcs += 1
+    if r["out"] != "[A|B]":
+        acc.candidate(kind="anonymous-imports", input=dict(flags=r["f"]), detail="rendered %r, both imported defs are callable unqualified: '[A|B]'" % (r["out"],))
+    else:
+        acc.good("anonymous-imports", dict(flags=r["f"]))
+    acc.sample(dict(flags=r["f"], output=r["out"]))
+
+
+
 def make_replay(c):
     i = c["input"] or {}
     body = """
@@ -309,7 +353,10 @@ if "uri" in CASE:
 else:
     from props import C07
     f = CASE["flags"]
-    if "api1" in f:
+    if "layout" in f:
+        src, want, top = C07.anon_sources(f), "[A|B]", "/n/main"
+        data = {"fa": lambda: "ctx-a", "fb": lambda: "ctx-b"} if f["ctx"] else {}
+    elif "api1" in f:
         src, want, top, data = C07.api_sources(f), C07.ref_api(f), "/main", {}
     elif "arg_x" in f:
         src, want, top, data = C07.include_sources(f), C07.ref_include(f), "/sub/main", {}
@@ -328,6 +375,7 @@ else:
     for k, v in src.items(): lk.put_string(k, v); print("---", k); print(v)
     try:
         got = lk.get_template(top).render(**data)
+        if "layout" in f: got = got.strip()
     except Exception as e:
         got = "raised %s: %s" % (type(e).__name__, e)
     print("rendered  :", got); print("documented:", want)
@@ -362,6 +410,8 @@ def run(check, tier):
         jobs.append(("C07-adjust-%d" % n, h_adjust(n), on_adjust, "adjust_uri for a symbolic URI of %d characters from two callers" % n, dict(chars=n), ("asserted",)))
     jobs.append(("C07-include", h_include, on_include, "include arguments and context isolation", dict(flags=5), ("asserted",)))
     jobs.append(("C07-ns", h_ns, on_ns, "namespace member precedence and import=, strict_undefined on/off", dict(flags=6), ("asserted",)))
+    jobs.append(("C07-anon", h_anon, on_anon, "two anonymous <%namespace import=> tags: layout on the line(s), import forms, a named namespace between, "
+                 "names also in the context, strict_undefined", dict(flags=6), ("asserted",)))
     jobs.append(("C07-api", h_api, on_api, "get_namespace / get_template / include_file / <%include> / <%namespace file> with one URI from two templates in one render",
                  dict(apis=len(API), second_callers=SECOND, uri_forms=FORMS), ("asserted", "unresolvable")))
     for j in jobs:
